@@ -96,6 +96,7 @@ func verifC09gate(tlsState int) {
 	in += line + "NOOP\r\n"
 	vc := &vconn{final: io.EOF, tlsFinal: io.EOF}
 	var conn *Conn
+	base := 0 // mechanism calls before the exchange under test
 	switch tlsState {
 	case 0: // plaintext
 		vc.in = []byte(in)
@@ -106,7 +107,17 @@ func verifC09gate(tlsState int) {
 		conn = newConn(tls.Server(vc, s.TLSConfig), s)
 	case 2: // after STARTTLS
 		s.TLSConfig = &tls.Config{}
-		vc.in = []byte("EHLO p\r\nSTARTTLS\r\n")
+		plain := "EHLO p\r\n"
+		if allow && authBackend && nondetBool() {
+			// authenticated in plaintext already: the upgrade forgets it, even
+			// when the backend's Logout of the plaintext session reports an error
+			plain += "AUTH XVERIF =\r\n"
+			base = 1
+			if nondetBool() {
+				be.logoutErr = verifErrBackend()
+			}
+		}
+		vc.in = []byte(plain + "STARTTLS\r\n")
 		vc.tlsIn = []byte(in)
 		conn = newConn(vc, s)
 	}
@@ -116,7 +127,8 @@ func verifC09gate(tlsState int) {
 		out = vc.tlsOut
 	}
 	reps, wf := verifParseReplies(out)
-	verifAssert(wf && lg.lines == 0, "C09.gate-replies")
+	// (a failing Logout may be logged)
+	verifAssert(wf && (lg.lines == 0 || be.logoutErr != nil), "C09.gate-replies")
 	if !wf {
 		return
 	}
@@ -145,7 +157,7 @@ func verifC09gate(tlsState int) {
 	switch {
 	case !greeted:
 		verifReach("C09.not-greeted")
-		verifAssert(ar.code/100 == 5 && factoryCalls == 0 && len(m.calls) == 0, "C09.auth-needs-greeting")
+		verifAssert(ar.code/100 == 5 && factoryCalls == base && len(m.calls) == base, "C09.auth-needs-greeting")
 	case !secure && !allow:
 		verifReach("C09.insecure")
 		verifAssert(!advertised, "C09.auth-not-advertised-when-insecure")
@@ -159,9 +171,9 @@ func verifC09gate(tlsState int) {
 		verifReach("C09.allowed")
 		verifAssert(advertised, "C09.auth-advertised-when-permitted")
 		verifAssert(ar.code == 235 && conn.didAuth, "C09.auth-succeeds")
-		verifAssert(factoryCalls == 1 && len(m.calls) == 1, "C09.mechanism-called-once")
-		if len(m.calls) == 1 {
-			verifAssert(string(m.calls[0]) == string(ir) && !m.nilCall[0], "C09.mechanism-gets-decoded-octets")
+		verifAssert(factoryCalls == base+1 && len(m.calls) == base+1, "C09.mechanism-called-once")
+		if len(m.calls) == base+1 {
+			verifAssert(string(m.calls[base]) == string(ir) && !m.nilCall[base], "C09.mechanism-gets-decoded-octets")
 		}
 	}
 }
